@@ -61,6 +61,8 @@ pub struct St {
     pub big: bool,
     pub xlines: usize,
     pub dead: bool,
+    /// the next few reclaim operations act on the SECOND newest block (seam scenarios)
+    pub second_newest: u8,
     /// index of the active handle = number of outstanding claim guards
     pub h: usize,
 }
@@ -131,18 +133,19 @@ impl St {
                 }
                 38..=49 if nb > 0 => {
                     // bias towards the newest block (the one that can be reclaimed)
-                    let b = if r.coin(2, 3) { self.blocks[nb - 1].id } else { self.blocks[r.below(nb as u64) as usize].id };
+                    let b = if self.second_newest > 0 && nb >= 2 { self.second_newest -= 1; self.blocks[nb - 2].id }
+                            else if r.coin(2, 3) { self.blocks[nb - 1].id } else { self.blocks[r.below(nb as u64) as usize].id };
                     Op::Dealloc { w, b }
                 }
                 50..=61 if nb > 0 => {
-                    let i = if r.coin(2, 3) { nb - 1 } else { r.below(nb as u64) as usize };
+                    let i = if self.second_newest > 0 && nb >= 2 { self.second_newest -= 1; nb - 2 } else if r.coin(2, 3) { nb - 1 } else { r.below(nb as u64) as usize };
                     let blk = &self.blocks[i];
                     let add = match r.below(6) { 0 => 0, 1..=3 => r.below(64) as usize, 4 => r.below(2000) as usize, _ => r.below(20000) as usize };
                     let align = if r.coin(3, 4) { blk.align } else { 1usize << r.below(8) };
                     Op::Grow { w, b: blk.id, size: blk.size + add, align, zeroed: r.coin(1, 3) }
                 }
                 62..=73 if nb > 0 => {
-                    let i = if r.coin(2, 3) { nb - 1 } else { r.below(nb as u64) as usize };
+                    let i = if self.second_newest > 0 && nb >= 2 { self.second_newest -= 1; nb - 2 } else if r.coin(2, 3) { nb - 1 } else { r.below(nb as u64) as usize };
                     let blk = &self.blocks[i];
                     let size = if blk.size == 0 { 0 } else { r.below(blk.size as u64 + 1) as usize };
                     let align = if r.coin(2, 3) { blk.align } else { 1usize << r.below(8) };
